@@ -3,7 +3,7 @@
    `unit_normal pl` is  |normal|^2 = 1  (P_plane.v); `plane_sd pl p = 0` says p lies on the plane.
    The dtype clause (real float64 normal) is not a statement about real arithmetic: it is part of the observed
    result in the correspondence check and of the oracle; fit_from_points is modelled with
-   fixes/C13-fit-real-normal.diff applied. *)
+   /repo commit 9820109 (np.linalg.eigh, fixes/C13-fit-real-normal.diff). *)
 From Coq Require Import ZArith Reals List Bool Lra.
 From PW Require Import Num NumR Vec Mat NpList Result.
 From PW.model Require Import M_plane M_plane_ctor.
@@ -14,7 +14,8 @@ Local Open Scope R_scope.
 (* the constructor keeps its arguments and accepts exactly the normals whose length is 1 to the tolerance
    atol; everything else is ValueError.  Proved for every atol; the step direction_decimals -> atol = 0.1 ** d is
    binary64 arithmetic of the harness/code and is tied by the correspondence check only (threshold bracketed at
-   0.9 / 1.1 atol for d in {None, 3, 4, 5, 6, 8}); default_atol is the d = 6 value (next theorem). *)
+   0.9 / 1.1 atol by the constructor stream for d in {None, 3, 6, 8}; d = 4, 5 occur only through from_point_and_normal /
+   from_points_and_vector with exactly unit normals); default_atol is the d = 6 value (next theorem). *)
 Theorem C13_ctor_accepts_iff_unit_to_decimals : forall atol ref n,
   (Rabs (vnorm ROps n - 1) <= atol -> plane_ctor ROps atol ref n = Ok (MkPlane ref n)) /\
   (atol < Rabs (vnorm ROps n - 1) -> plane_ctor ROps atol ref n = Raise ValueError).
@@ -124,7 +125,8 @@ Theorem C13_min_eigenvector_is_least_squares : forall ps n lam, (2 <= length ps)
   forall m, vnorm2 ROps m = 1 -> ssd ps (centroid ROps ps) n <= ssd ps (centroid ROps ps) m.
 Proof. exact min_eigenvector_is_least_squares. Qed.
 Theorem C13_contract_gives_min_eigenvector : forall c e, eig_contract c e ->
-  exists lam, (forall m, lam * vdot ROps m m <= quad c m) /\ quad c (fit_normal ROps e) = lam.
+  exists lam, (forall m, lam * vdot ROps m m <= quad c m) /\
+    vnorm2 ROps (fit_normal ROps e) = 1 /\ m3apply ROps c (fit_normal ROps e) = vscale ROps lam (fit_normal ROps e).
 Proof. exact contract_gives_min_eigenvector. Qed.
 (* the sum of squared distances is the quadratic form of the scatter matrix, (N - 1) times that of np.cov *)
 Theorem C13_ssd_is_quadratic_form : forall ps c m,
@@ -164,8 +166,6 @@ Proof.
   replace (plane_sd ROps (plane_xy ROps) (V3 1 0 1)) with 1 by (symmetry; apply (coordinate_planes (V3 1 0 1))).
   unfold plane_xy, vsub, vscale, vzero, n0, n1; cbn. intros H. injection H as H _ _. lra.
 Qed.
-(* non-vacuity: hypotheses of C13_fit_is_least_squares_partial for a concrete cloud and its eigen-decomposition
-   (+-3 e_x, +-2 e_y, +-e_z: covariance diag(18,8,2)/5) *)
 (* non-vacuity of C13_min_eigenvector_is_least_squares with a TIE: +-e_x, +-e_y (covariance diag(2,2,0)/3), n = e_z *)
 Example C13_tie_hypotheses_inhabited :
   let ps := [V3 1 0 0; V3 (-1) 0 0; V3 0 1 0; V3 0 (-1) 0] in
@@ -179,6 +179,8 @@ Proof.
   match goal with |- 0 <= ?e => replace e with (2 / 3 * (mx * mx) + 2 / 3 * (my * my)) by field end.
   pose proof (Rle_0_sqr mx). pose proof (Rle_0_sqr my). unfold Rsqr in *. lra.
 Qed.
+(* non-vacuity: hypotheses of C13_fit_is_least_squares_partial for a concrete cloud and its eigen-decomposition
+   (+-3 e_x, +-2 e_y, +-e_z: covariance diag(18,8,2)/5) *)
 Example C13_fit_hypotheses_inhabited :
   (2 <= length six_points)%nat /\ eig_contract (cov ROps six_points) ((fun _ => six_points_eig) (cov ROps six_points)).
 Proof. split; [cbn; repeat constructor|exact six_points_contract]. Qed.
